@@ -649,6 +649,14 @@ theorem EmpInv_step {s : State} (hw : WF s) (h : EmpInv s) (op : Op) (hs : op.sa
   | move a c => exact EmpInv_move h a c
   | remove a => exact EmpInv_remove h a
   | empties => exact h
+  | gridSet n =>
+    simp only [step]
+    unfold gridSet
+    split
+    · exact h
+    · split
+      · exact h
+      · exact h.transfer rfl (fun _ => rfl) (fun _ => rfl) (Nat.le_refl _) h.handles rfl rfl
   | nbhdMask k geom torus c ic r =>
     simp only [step]
     unfold nbhdMask
@@ -733,6 +741,7 @@ theorem step_impl (s : State) (op : Op) : (step s op).1.impl = s.impl := by
   | remove a => exact (sameShape_remove ..).impl
   | empties => rfl
   | nbhdMask k geom torus c ic r => exact (sameShape_nbhdMask ..).impl
+  | gridSet n => exact (sameShape_gridSet ..).impl
   | select ms oe conds exts save =>
     simp only [step]
     split
